@@ -563,9 +563,64 @@ func asIfChain(st ast.Stmt) ast.Stmt {
 	return head
 }
 
+// negate returns the negation of a comparison or of a `!x`, nil for anything else.
+func negate(e ast.Expr) ast.Expr {
+	switch x := e.(type) {
+	case *ast.BinaryExpr:
+		flip := map[token.Token]token.Token{token.EQL: token.NEQ, token.NEQ: token.EQL, token.LSS: token.GEQ, token.GEQ: token.LSS, token.GTR: token.LEQ, token.LEQ: token.GTR}
+		if op, ok := flip[x.Op]; ok {
+			return &ast.BinaryExpr{X: x.X, OpPos: x.OpPos, Op: op, Y: x.Y}
+		}
+	case *ast.UnaryExpr:
+		if x.Op == token.NOT {
+			return x.X
+		}
+	case *ast.ParenExpr:
+		return negate(x.X)
+	}
+	return nil
+}
+
+// guardClauses: in a function without result values, `if c { return }; rest…` at the top of the
+// body is read as `if !c { rest… }` (the early-return form of the same code).
+func guardClauses(ft *ast.FuncType, body *ast.BlockStmt) {
+	if body == nil || (ft.Results != nil && len(ft.Results.List) > 0) {
+		return
+	}
+	for i, st := range body.List {
+		is, ok := st.(*ast.IfStmt)
+		if !ok || is.Init != nil || is.Else != nil || len(is.Body.List) != 1 || i+1 >= len(body.List) {
+			continue
+		}
+		if r, ok := is.Body.List[0].(*ast.ReturnStmt); !ok || len(r.Results) != 0 {
+			continue
+		}
+		neg := negate(is.Cond)
+		if neg == nil {
+			continue
+		}
+		// the rest must not declare anything used after it (it is the end of the function anyway)
+		rest := &ast.BlockStmt{Lbrace: is.Body.Rbrace, List: append([]ast.Stmt(nil), body.List[i+1:]...), Rbrace: body.Rbrace}
+		guardClauses(ft, rest)
+		body.List = append(body.List[:i:i], &ast.IfStmt{If: is.If, Cond: neg, Body: rest})
+		return
+	}
+}
+
 // normalizeFile rewrites every tagless switch of a file (function bodies and function literals
-// alike) into an if-chain, in place.
+// alike) into an if-chain and puts a `nil` operand of == / != on the right, in place.
+// (guardClauses is applied by the patterns that accept both shapes, not globally: most patterns
+// are written for the shape the pinned tree has.)
 func normalizeFile(f *ast.File) {
+	ast.Inspect(f, func(n ast.Node) bool {
+		switch x := n.(type) {
+		case *ast.BinaryExpr:
+			if id, ok := x.X.(*ast.Ident); ok && id.Name == "nil" && (x.Op == token.EQL || x.Op == token.NEQ) {
+				x.X, x.Y = x.Y, x.X
+			}
+		}
+		return true
+	})
 	ast.Inspect(f, func(n ast.Node) bool {
 		switch x := n.(type) {
 		case *ast.BlockStmt:
